@@ -20,6 +20,27 @@ func init() { register("C20", "exploration", runC20) }
 
 func runC20(r *engine.Run) {
 	r.Rule = "E1 product enumeration. GPS: every day 1980-01-06..2100-01-01 at 00:00:00/12:00:00/23:59:59, every millisecond within ±3 s of each of the 18 leap instants, ±{1,2,3} ns around every whole second there, and the GPS-duration images of those windows; airtime: SF 5..12 x BW{125,250,500,812,1625} x payload 0..255 x CR 0..5 x header x LDRO x preamble 0..64 (complete); EIRP: all 256 indices and float32 bit patterns (quick: every float32 in [8,64) + one per exponent above; thorough: every finite float32 >= 8). A case is non-trivial when the implementation returned a value that was compared with the independent definition (not an error path)."
+	// the first call into the gps package in this process is a GPS -> UTC conversion (a beacon or
+	// DeviceTimeAns consumer never converts the other way): whatever the package builds on first use is
+	// there for either direction. Child processes of the environment variants start the same way.
+	r.PartDims("gps/first-call-of-the-process", []string{"GPS duration -> UTC before any other call: 3 published instants"}, 1, func(c *engine.Case) {
+		c.Eval()
+		c.NonTrivial()
+		for _, w := range []struct {
+			d   time.Duration
+			utc time.Time
+		}{
+			{(1436486400 + 18) * time.Second, time.Date(2025, 7, 14, 0, 0, 0, 0, time.UTC)},
+			{(1148774400 + 17) * time.Second, time.Date(2016, 6, 1, 0, 0, 0, 0, time.UTC)},
+			{(49507200 + 1) * time.Second, time.Date(1981, 8, 1, 0, 0, 0, 0, time.UTC)},
+		} {
+			if got := time.Time(gps.NewTimeFromTimeSinceGPSEpoch(w.d)); !got.Equal(w.utc) {
+				c.Fail("gps/first-call/duration-to-utc", fmt.Sprintf("first gps call of the process: %s since the GPS epoch -> %s, published %s", w.d, got.UTC().Format(time.RFC3339Nano), w.utc.Format(time.RFC3339Nano)), nil)
+				return
+			}
+		}
+		c.Outcome("gps/first-call/ok")
+	})
 	// the process time zone is read by the time package (and by whoever calls time.Local / time.Date with it)
 	// when the process starts: an answer of the environment, not an argument
 	r.EnvironmentVariants([]engine.EnvVariant{{Name: "TZ=Asia/Tokyo", Env: []string{"TZ=Asia/Tokyo"}}, {Name: "TZ=America/Los_Angeles", Env: []string{"TZ=America/Los_Angeles"}}, {Name: "TZ=Pacific/Kiritimati", Env: []string{"TZ=Pacific/Kiritimati"}}})
